@@ -33,8 +33,10 @@ func c17Setup() {
 			"a.css": "A-CSS", "app.js": "APP-JS", "index.html": "INDEX-HTML", "sub/page.html": "SUB-PAGE", "sub/x.css": "SUB-CSS",
 			"readme.md": "README-MD", "chart.js/index.html": "CHART-INDEX", "chart.js/private.md": "CHART-PRIV", ".hidden": "HIDDEN-FILE",
 			"theme.css/data.txt": "THEME-DATA",
+			// names that end in the letters of an allowed extension without being that extension
+			"src/theme.scss": "THEME-SCSS", "nodejs": "NODEJS", "src/worker.mjs": "WORKER-MJS", "keys_js": "KEYS-JS", "a.xcss": "A-XCSS",
 		}
-		out := map[string]string{"secret.txt": "TOP-SECRET", "pub-private/key.txt": "PRIVATE-KEY", "pub.bak/a.css": "BAK-CSS", "pubx": "PUBX"}
+		out := map[string]string{"secret.txt": "TOP-SECRET", "pub-private/key.txt": "PRIVATE-KEY", "pub.bak/a.css": "BAK-CSS", "pubx": "PUBX", "secret.js": "SECRET-JS", "secret.css": "SECRET-CSS"}
 		c17Root = filepath.Join(base, "pub")
 		for rel, content := range in {
 			p := filepath.Join(c17Root, rel)
@@ -58,7 +60,7 @@ func c17Setup() {
 }
 
 var c17Segs = []string{"..", ".", "", "a.css", "app.js", "sub", "x.css", "page.html", "readme.md", "chart.js", "index.html", "private.md", "secret.txt",
-	"pub-private", "key.txt", "pub.bak", "%2e%2e", "%2E%2E", "..%2f", "%2f", "\\", "..\\", "%00", "a.css.", "a.css%20", "pub", "pubx", ".hidden", "theme.css", "data.txt", "...", "%5c"}
+	"pub-private", "key.txt", "pub.bak", "%2e%2e", "%2E%2E", "..%2f", "%2f", "\\", "..\\", "%00", "a.css.", "a.css%20", "pub", "pubx", ".hidden", "theme.css", "data.txt", "...", "%5c", "secret.js", "%2e", "nodejs", "theme.scss", "src", "keys_js"}
 
 func c17Gen(r *Rng, tier string, i int) Sx {
 	var segs []string
@@ -80,10 +82,16 @@ func c17Gen(r *Rng, tier string, i int) Sx {
 		// mostly-valid stream: a real file or directory, re-spelled with cancelling dot-dot pairs, "./", "//", a trailing slash,
 		// or an escape towards a sibling of the root
 		valid := []string{"a.css", "app.js", "sub/x.css", "sub/page.html", "index.html", "readme.md", "chart.js", "chart.js/", "chart.js/index.html",
-			"chart.js/private.md", "theme.css/", "theme.css/data.txt", "sub", "sub/", ".hidden", ""}
+			"chart.js/private.md", "theme.css/", "theme.css/data.txt", "sub", "sub/", ".hidden", "", "src/theme.scss", "nodejs", "src/worker.mjs", "keys_js", "a.xcss"}
 		p = valid[r.Intn(len(valid))]
 		for k := r.Intn(3); k > 0; k-- {
-			switch r.Intn(7) {
+			switch r.Intn(10) {
+			case 7:
+				p = r.Pick([]string{"./../secret.js", "sub//../../secret.js", "%2e/%2e%2e/secret.css", "././../../secret.js", ".//..//secret.css"})
+			case 8:
+				p = "./" + p + "/../../secret.js"
+			case 9:
+				p = "sub//" + p
 			case 0:
 				p = "sub/../" + p
 			case 1:
